@@ -148,7 +148,7 @@ def cmd_check(pid, tier, seed, only=None, jobs_n=None):
     # longest first
     order = sorted(range(len(jobs)), key=lambda i: -jobs[i].get('cost', 1))
     nproc = jobs_n or min(int(os.environ.get('VERIF_JOBS', '16')), max(1, len(jobs)))
-    cap = float(os.environ.get('VERIF_WALL_CAP_S', '420' if tier == 'quick' else '3300'))
+    cap = float(os.environ.get('VERIF_WALL_CAP_S', '420' if tier == 'quick' else '1700'))
     results = _run_pool([jobs[i] for i in order], nproc, deadline=t0 + cap)
     results.sort(key=lambda r: r['harness'])
     known = load_known()
